@@ -85,7 +85,7 @@ pub fn run(em: &mut Emitter, rng: &mut Rng, thorough: bool) {
     for a in 0xf0..=0xf8u8 { for &b in &cont { for &c in &cont { for &d in &cont { decode_case(em, 0, 2, &prim_tlv(0x0c, &[a, b, c, d]), Some(&[a, b, c, d])); } } } }
     if thorough { for a in 0xe0..=0xefu8 { for b in 0..=255u8 { for c in [0x7fu8, 0x80, 0xbf, 0xc0] { decode_case(em, 0, 2, &prim_tlv(0x0c, &[a, b, c]), Some(&[a, b, c])); } } } }
     // segmented (constructed) strings: a multi-octet character straddling a segment boundary
-    for _ in 0..(if thorough { 40_000 } else { 5_000 }) {
+    for _ in 0..(if thorough { 160_000 } else { 5_000 }) {
         let cs = rng.below(4) as u8;
         let text: String = (0..rng.below(5)).map(|_| match cs { 0 => *rng.pick(&['a', 'é', '€', '😀', '\u{7ff}', '\u{800}', '\u{ffff}', '\u{10000}', '\u{10ffff}', '\u{d7ff}', '\u{e000}']),
                                                                 1 => *rng.pick(&['0', '9', ' ']), 2 => *rng.pick(&['A', 'z', '5', '?', '\'', ' ']), _ => *rng.pick(&['a', '\u{7f}', '\0', '~']) }).collect();
@@ -103,7 +103,7 @@ pub fn run(em: &mut Emitter, rng: &mut Rng, thorough: bool) {
         fromstr_case(em, cs, "");
         for &c in &pool { fromstr_case(em, cs, &c.to_string()); for &d in &pool { fromstr_case(em, cs, &format!("{}{}", c, d)); } }
         for c in 0u8..128 { fromstr_case(em, cs, &(c as char).to_string()); }
-        for _ in 0..(if thorough { 20_000 } else { 2_000 }) {
+        for _ in 0..(if thorough { 80_000 } else { 2_000 }) {
             let n = rng.range(1, 8); let t: String = (0..n).map(|_| *rng.pick(&pool)).collect(); fromstr_case(em, cs, &t);
         }
     }
